@@ -85,7 +85,7 @@ ASSUMPTIONS = [
     "regex criterion: a displayed pattern is right when CPython's re._parser gives it the same parse tree and flags as the source pattern (so (?P=n) shown as \\1, dropped (?#comments), 'ab|ac' shown as 'a[bc]' pass: same regex, other spelling); the call must keep its flags expression and its * / ** arguments",
     "re.compile(<constant>) goes through the regex colourizer (_colorize_ast_re, _colorize_re_pattern, _colorize_re_tree over pydoctor's vendored sre_parse36): only the LITERAL and GROUPREF branches of _colorize_re_tree are modelled (reLiteral, reGroupRef; re-elements stream against the real method on tiny trees); everything else is NOT modelled: the regex stream checks it with the direct oracle only (same call, same flags expression, pattern constant equal or read as the same regex by CPython's re._parser under the compile flags the flags argument designates - both 0 and re.VERBOSE when it is not a constant; patterns CPython itself rejects are exempt); the other streams never generate re.compile",
     "_storeAttrValue is modelled (storeAttrValue/storeAll); that the builder calls it once per assignment statement of a documented module/class variable, in source order, is what the augassign stream checks",
-    "what is delegated to astor outside comparison/conditional expressions over names and operators is an opaque leaf: the model is given astor's text; that the text is self-delimiting is checked only by the direct oracle (CPython re-parse)",
+    "what is delegated to astor outside comparison/conditional expressions over names and operators is an opaque leaf: the model is given astor's two texts (one line, as asked for when no line break is allowed since a5155ca, and astor's default, possibly wrapped); that the text is self-delimiting is checked only by the direct oracle (CPython re-parse)",
     "float/complex constants: the model is given str(value) and applies the inf -> 1e309 replacement itself; numeric formatting is judged by the oracle through the parsed value",
     "string annotations: since a1c047d every node of an unquoted annotation has its parent link, so the model request is the plain tree (the historical `ul` marker is no longer sent); the unstring stream and its oracle stay",
     "lone surrogates in string constants are checked by the direct oracle only (they cannot travel to the Lean model)",
@@ -511,12 +511,23 @@ def classify(src: str, cfg: Tuple[int, int, bool], verdict: str) -> str:
         # a literal leaf is spelled differently with and without line breaks: try it both ways
         cfgs = [cfg] + ([(0, 1, False), (0, 0, True)] if isinstance(n, ast.Constant) else [])
         v = "ok"
+        shown_u = ""
         for c2 in cfgs:
-            v, _, _ = readback(u, c2)
+            v, shown_u, _ = readback(u, c2)
             if v in ("syntax", "differs") or v.startswith("raise:"):
                 break
         if v in ("syntax", "differs") or v.startswith("raise:"):
             sig = classify_root(ast.parse(u, mode="eval").body, v)
+            if sig == "delegated:astor" and isinstance(n, DELEGATED):
+                # astor's own defect only if what is shown IS astor's text; otherwise pydoctor changed it
+                import astor
+                try:
+                    mine = ast.parse(u, mode="eval").body
+                    texts = {astor.to_source(mine, pretty_source="".join).strip(), astor.to_source(mine).strip()}
+                except Exception:
+                    texts = {"??"}
+                if shown_u not in texts:
+                    sig = "delegated:shown-text-is-not-astor's"
             _MIN_CACHE[k2] = sig
             break
         _MIN_CACHE[k2] = "ok"
